@@ -544,7 +544,16 @@ func httpLayer(rep *mc.Reporter) {
 	}
 	jb, err := os.ReadFile(out)
 	if err != nil {
-		mc.Fatal("HTTP family wrote no result: %v %v\n%s", err, runErr, firstLines(string(b), 30))
+		// the test binary ended before it could write its result: when the Go runtime ended it inside repository code
+		// (a panic of the service under these requests), that is what C11 forbids
+		text := string(b)
+		if i := strings.Index(text, "panic:"); i >= 0 && (strings.Contains(text[i:], "/internal/index/manager/") || strings.Contains(text[i:], "/internal/query/") || strings.Contains(text[i:], "/cmd/pkappa2/main.go")) {
+			rep.Report(mc.Violation{Symptom: "c11.http-process-died", Key: firstLines(text[i:], 1), Msg: "the service died while the tag routes were being driven:\n" + firstLines(text[i:], 25),
+				Replay: map[string]any{"run": "VERIF_C11H_OUT=/tmp/c11h.json /verif/bin/c19.test -test.run '^TestVerifC11HTTP$'"}})
+			rep.Coverage["http_layer"] = "ended by a panic of the service (reported)"
+			return
+		}
+		mc.Fatal("HTTP family wrote no result: %v %v\n%s", err, runErr, firstLines(text, 30))
 	}
 	if err := json.Unmarshal(jb, &r); err != nil {
 		mc.Fatal("HTTP family: %v", err)
